@@ -101,6 +101,13 @@ check(
     "solver-driven bounded-exhaustive enumeration (selectors) of hostile names through the real naming kernel and the real analysis pipeline",
     "DESIGN.md §5 C07",
 )
+check(
+    "C12",
+    "ORDERING KERNELS ONLY - byte-identical files, repeated runs and the CLI / config-file routes are NOT decided (no renderer, no click). Decided, bounded-exhaustive and solver-driven: the hash seed is turned into a choice - `set` in the globals of 12 codegen modules is a subclass whose iteration order is a permutation picked by 4 symbolic integers, and id() in xsdata.models.xsd returns distinct integers ordered by the same picks; for every dependency graph on 3 complex types (6 edge booleans; union-typed attribute; nested sequence/choice groups) rendered as an XSD and pushed through the REAL SchemaParser -> SchemaMapper -> ClassContainer.process -> DependenciesResolver, the package/module designation, class order, import order, attribute type priority and emitted restrictions (incl. renumbered sequence ids) must equal those under the identity permutation, per structure style.",
+    "Trusted: shims for click/jinja2/toposort; the assumption that C-level consumers of a set subclass bypass __iter__ only where order cannot matter. Outside: set literals/comprehensions, more than 3 classes, more than 4 independent picks, everything after the analysis half.",
+    "solver-driven bounded-exhaustive enumeration of set-iteration permutations and dependency graphs through the real analysis pipeline",
+    "DESIGN.md §5 C12",
+)
 for _p, _r in {
     "C07": "check not built yet", "C08": "check not built yet", "C09": "check not built yet", "C10": "check not built yet",
     "C11": "check not built yet", "C12": "check not built yet", "C14": "check not built yet", "C15": "check not built yet",
